@@ -16,9 +16,13 @@ simk::define_interposers!();
 
 static mut EPOCH: u64 = 1_000_000_000_000; // virtual clock base; only ever grows
 
+static mut EVENTS: Option<std::collections::VecDeque<csim::SEv>> = None;
+
 fn run_one(host: &mut Popen, sc: &Scenario, script: Vec<u32>, rng: Option<Rng>, out: &mut Vec<String>) -> (Vec<u32>, Vec<u32>) {
     let epoch = unsafe { EPOCH };
-    let mut sim = Box::new(Sim::new(sc.clone(), Chooser::new(script, rng), epoch));
+    let mut ch = Chooser::new(script, rng);
+    ch.events = unsafe { (*std::ptr::addr_of_mut!(EVENTS)).take() };
+    let mut sim = Box::new(Sim::new(sc.clone(), ch, epoch));
     let fds = sim.open_pipes();
     unsafe { csim::SIM = Some(sim) };
     let sim = csim::sim().unwrap();
@@ -40,6 +44,7 @@ fn run_one(host: &mut Popen, sc: &Scenario, script: Vec<u32>, rng: Option<Rng>, 
             c = c.limit_time(Duration::from_nanos(t));
             eff_tlim = Some(t);
         }
+        sim.before_call();
         sim.deadline = eff_tlim.map(|t| sim.now + t);
         sim.log(json!({"e":"call","limit":eff_limit.map(|x| x as i64).unwrap_or(-1),
             "tl": eff_tlim.map(|t| json!([t / 1_000_000_000, t % 1_000_000_000])).unwrap_or(json!([-1, 0])),
@@ -177,7 +182,18 @@ fn main() {
         let base_id = sc.id.clone();
         let lines: &mut Vec<String> = unsafe { &mut *std::ptr::addr_of_mut!(PENDING) };
         lines.clear();
-        if let Some(script) = v.get("script").and_then(|s| s.as_array()) {
+        if let Some(evs) = v.get("events").and_then(|s| s.as_array()) {
+            // a behaviour generated by TLC: environment steps around the points where system calls return
+            let q: std::collections::VecDeque<csim::SEv> = evs.iter().map(|e| match e.as_str().unwrap_or("P") {
+                "C" => csim::SEv::C,
+                "P" => csim::SEv::P,
+                "K" => csim::SEv::K,
+                t => csim::SEv::T(t[1..].parse().unwrap_or(1_000_000)),
+            }).collect();
+            unsafe { EVENTS = Some(q) };
+            run_one(&mut host, &sc, vec![], None, lines);
+            nruns += 1;
+        } else if let Some(script) = v.get("script").and_then(|s| s.as_array()) {
             let script: Vec<u32> = script.iter().map(|x| x.as_u64().unwrap() as u32).collect();
             run_one(&mut host, &sc, script, None, lines);
             nruns += 1;
